@@ -442,6 +442,19 @@ namespace hs
         }
         stats().hit("sut." + sut);
         auto& c = S.o->caps;
+        if (c.kind == K_STACK)
+        {
+            // the constructor obtained the first block (sources whose blocks are upstream blocks of their own)
+            S.cur_block_known = false;
+            auto& ev          = heap.events();
+            for (std::size_t k = ev.size(); k-- > 0;)
+                if (ev[k].acquire && ev[k].owner == S.o->owner && S.o->owner >= OWNER_MALLOC)
+                {
+                    S.cur_block       = ev[k].off;
+                    S.cur_block_known = heap.find(heap.at(ev[k].off)) != nullptr;
+                    break;
+                }
+        }
         if (c.kind == K_TEMP)
         {
             // the constructor obtained the first block: the newest acquisition of its owner
@@ -764,12 +777,16 @@ namespace hs
                         "the upstream call of this request failed, yet next_capacity() went from %zu to %zu", next0,
                         S.o->reading(1));
             S.failure_seen   = true;
+            S.cur_block_known = false; // (a failed request may have moved the stack to another block)
             if (c.kind == K_TEMP && (calls != (fired ? 1u : 0u) || !f.is_sim))
                 S.t_model = false; // the stack grows first and judges the size then (bad_allocation_size): it may
                                    // have moved to a fresh or cached block the model cannot see
             S.last_end_valid = false; // a failed request may have moved the stack to a fresh block
             for (auto& m : S.markers)
+            {
                 m.tape_valid = false;
+                m.grew_dead  = true;
+            }
             shadow_.check_all(cprop("C03,C01"), "after a failed allocation");
             return false;
         }
@@ -784,7 +801,10 @@ namespace hs
             stats().hit("reach.try_returned_null");
             S.failure_seen = true;
             for (auto& m : S.markers)
+            {
                 m.tape_valid = false;
+                m.grew_dead  = true;
+            }
             return false;
         }
         if (r.fam == COMP && calls)
@@ -903,6 +923,21 @@ namespace hs
                                                         "%zu bytes (size %zu, alignment %zu, fence %zu)",
                                 d, want, usable, r.align, FENCE);
                     stats().hit("reach.stack_delta_checked");
+                }
+                // the stack moved on to its next block (a new or a cached one): remember how large that block was
+                // announced to be, for every marker that sees its first growth here
+                if (c.kind == K_STACK)
+                {
+                    bool grew = calls || (S.cur_block_known && blk && blk->off != S.cur_block);
+                    for (auto& m : S.markers)
+                    {
+                        if (!S.cur_block_known && !calls)
+                            m.grew_dead = true; // cannot tell whether the stack moved to a cached block
+                        else if (grew && !m.grew_next && !m.grew_dead)
+                            m.grew_next = next0;
+                    }
+                    S.cur_block       = blk ? blk->off : 0;
+                    S.cur_block_known = blk != nullptr;
                 }
                 S.last_end       = pu + usable + FENCE;
                 S.last_end_valid = blk != nullptr;
@@ -1114,6 +1149,8 @@ namespace hs
         m.successes = S->successes;
         m.t_size    = S->t_size;
         m.t_block   = S->t_block;
+        m.block       = S->cur_block;
+        m.block_known = S->cur_block_known;
         for (auto& o : S->markers)
             m.outer_len.push_back(o.tape.size());
         if (!S->markers.empty() && S->o->caps.kind != K_TEMP) // (scopes of a temporary stack have no public markers)
@@ -1198,6 +1235,10 @@ namespace hs
         S->o->truncate_markers(M.idx + 1);
         S->markers.resize(mi + 1);
         S->markers[mi].t_flag = false; // a fresh scope takes the place of the ended one
+        S->markers[mi].grew_next = 0;
+        S->markers[mi].grew_dead = false;
+        S->cur_block             = M.block;
+        S->cur_block_known       = M.block_known;
         // "less" is defined by allocations since the marker with no unwind between: the counts restart here
         S->attempts  = M.attempts;
         S->successes = M.successes;
@@ -1211,6 +1252,18 @@ namespace hs
                     cap, M.cap);
         if (!S->o->top_equals(M.idx))
             violate("C06", "unwind_top", "top() after unwind does not equal the marker");
+        if (S->o->caps.kind == K_STACK && M.grew_next && !M.grew_dead)
+        {
+            // the block the stack grew into after the marker is cached now and comes next: next_capacity() is what
+            // it was right before that growth
+            auto next = S->o->reading(1);
+            if (next != M.grew_next)
+                violate("C06,C18", "unwind_next_capacity",
+                        "next_capacity() after unwind is %zu; it was %zu before the stack grew into the block that "
+                        "is cached now",
+                        next, M.grew_next);
+            stats().hit("reach.unwind_next_capacity_checked");
+        }
         shadow_.check_all(cprop("C06,C01"), "after unwind (older allocations)");
         auto tape = M.tape;
         bool ok   = M.tape_valid && !(S->o->caps.kind == K_TEMP && S->shrunk);
@@ -1253,7 +1306,10 @@ namespace hs
         if (rel)
             stats().hit("reach.shrink_released_blocks");
         for (auto& m : S->markers)
+        {
             m.tape_valid = false;
+            m.grew_dead  = true;
+        }
         S->shrunk = true;
         if (S->o->caps.kind == K_TEMP)
         {
